@@ -16,8 +16,8 @@ i.e. the same object on success (`dec` packs the byte tuple into `Model.Oxx`), t
 `Abv` payload) on failure, and a panic outcome (index out of range, nil dereference, loop fuel exhausted) on one
 side iff on the other. For v2.0 the statement holds for every content of the pooled 14-slot buffer.
 
-With these theorems the source-hash ties of `Model/SrcTie.lean` are no longer needed for `ParseVector`, `split`,
-`splitCouple`, `kvm.Set`: a change of the Go text changes `Gen/P*.lean`, and either these theorems still hold (the
+With these theorems no source-hash tie is needed for `ParseVector`, `split`, `splitCouple`, `kvm.Set` (an earlier one was
+removed): a change of the Go text changes `Gen/P*.lean`, and either these theorems still hold (the
 change is behaviour-preserving with respect to the model) or they fail to compile.
 -/
 namespace ParseTie
